@@ -1,15 +1,72 @@
 """C14 — Chinese remaindering and residue number systems reconstruct the unique integer.
 
-Proof: lean/GivaroModel/Props/C14.lean (all-inputs theorems about the executable model of IntRNSsystem,
-RNSsystem<RING,Domain> and the ChineseRemainder functor, quantified over every history of the system object).
-Tie C (correspondence): harness/h_crt.cpp calls the real classes in-process over every residue domain used by the
-library's own CRT test plus the floating-point and 8-bit ones, on structured moduli lists and exhaustively enumerated
-histories; lean/Driver/CRT.lean evaluates model and specification on every line.
+Proof: lean/GivaroModel/Props/C14.lean — all-inputs theorems about the executable model (Model/CRT.lean) of IntRNSsystem,
+RNSsystem<RING,Domain>, the ChineseRemainder functor and Poly1CRT: digits, uniqueness, both round trips, the value is Mathlib's
+`Nat.chineseRemainderOfList`, the cache invariant lifted over operation lists of any length on any number of objects.
+Tie T (translation): translate/gen_smf.py regenerates Generated/SMF.lean (which data member every copy/move operation of every
+CRT/RNS class copies from which) from the clang AST on every run; Props/C14SMF.lean is a kernel evaluation over the whole table.
+Tie C (correspondence): harness/h_crt.cpp calls the real classes in-process over 14 residue domains on structured moduli lists,
+exhaustively enumerated single-object histories and sampled programs over several objects; lean/Driver/CRT.lean evaluates model
+and specification on every line.
 """
 import json
 import time
 
 from vlib import common, report, flow
+from translate import gen_smf
+
+SMF_MODULE = "GivaroModel.Props.C14SMF"
+SMF_FILE = "GivaroModel/Props/C14SMF.lean"
+STATE_MEMBERS = {"IntRNSsystem": ["_primes", "_prod", "_ck"], "RNSsystem": ["_primes", "_ck"], "RNSsystemFixed": ["_primes", "_RNS"],
+                 "ChineseRemainder": ["_domain", "C_12"], "Poly1CRT": ["_F", "_PolRing", "_primes", "_ck"], "Array0": ["_size", "_d"]}
+COPY_LETTERS = set("CKABbVcka")
+
+
+def smf_broken_rows(table):
+    """the rows of the generated table that falsify Props/C14SMF.smf_complete (same predicate, for the report)"""
+    bad = []
+    for t in table:
+        for o in t["ops"]:
+            if o["how"] in ("absent", "deleted", "implicit-unused-or-deleted"):
+                continue
+            for f in STATE_MEMBERS.get(t["cls"], []):
+                src = o["per"].get(f, [])
+                if t["cls"] == "Array0" and o["how"] == "user":
+                    ok = f in src and f in o["writes"]
+                else:
+                    ok = src == [f]
+                if not ok or o["how"] not in ("user", "implicit"):
+                    bad.append("%s %s (%s): %s <- %s" % (t["inst"], o["op"], o["how"], f, src))
+    return bad
+
+
+def smf_stage(V, L):
+    """tie T: regenerate Generated/SMF.lean from the clang AST, re-check the table theorems.  Returns (ok, broken rows)."""
+    table, err = [], None
+    try:
+        table = gen_smf.extract()
+        gen_smf.emit(table)
+    except Exception as e:           # the translation unit no longer compiles / clang missing
+        err = str(e)[-3000:]
+    if err is not None:
+        return False, ["special-member-function extraction failed: " + err], table
+    ok, out, t = common.lake_build([SMF_MODULE])
+    thms = common.theorems_in(SMF_FILE)
+    L["theorems"] += thms
+    L["t"] += t
+    bad = smf_broken_rows(table)
+    if ok:
+        axs, _missing, _txt = common.print_axioms(SMF_MODULE, thms)
+        good = [n for n in thms if axs.get(n) is not None and not (axs[n] - common.ALLOWED_AXIOMS)]
+        L["proved"] += len(good)
+        if len(good) != len(thms):
+            L["audit_ok"] = False
+            V.violation("audit_axioms_smf", {"obligation": "axioms of the SMF table theorems", "theorems": sorted(set(thms) - set(good))},
+                        no_failing_input=True)
+    else:
+        errs = ["%s:%s %s" % (f, ln, msg[:200]) for f, ln, col, msg in common.lean_errors(out)]
+        bad = bad or errs or [out[-1500:]]
+    return ok, bad, table
 
 
 def run(prop, tier, seed, replay=None):
@@ -21,11 +78,17 @@ def run(prop, tier, seed, replay=None):
         "mpz_gcdext and Domain::inv are modelled by their contract only: `cof p x` is *some* inverse of x mod p whenever one exists "
         "(theorems quantify over every such function; the driver runs extended Euclid, proved to satisfy the contract)",
         "Integer arithmetic (mulin/addin/sub/mod = mpz_mod) is exact (C01/C02)",
-        "RNSsystemFixed (tree recombination) and Poly1CRT are tied by differential execution against the specification checker and the "
-        "(proved) Garner model / the Newton-interpolation model, but have no all-inputs theorem of their own",
+        "RNSsystemFixed (tree recombination) has no model of its own: its output is compared with the specification checker and the "
+        "(proved) Garner conversion on the same primes and residues",
+        "Poly1CRT: Poly1Dom::eval/mulin/mul/axpyin are modelled as exact polynomial arithmetic over Z/p on coefficient lists (C08); "
+        "the field is Z/p with p prime (extension fields are not modelled)",
+        "the special-member-function table is a syntactic reading of clang's AST (member initialisers and assignment statements of the "
+        "instantiated / implicitly defined special members, closed under calls to member functions of the same class); what the copy "
+        "of a *member's own type* does (std::vector, Integer, Array0 deep copy, the domain classes) is C16/C17's subject",
         "Array0 storage management inside RNSsystem is abstracted to value semantics (C17); the histories exercise it under ASan",
     ]
     L = flow.lean_stage(V, ["GivaroModel.Props.C14"], "GivaroModel/Props/C14.lean")
+    smf_ok, smf_bad, smf_table = smf_stage(V, L)
     t0 = time.time()
     bins = flow.build_harnesses("h_crt", configs=("S",))
     t_build = time.time() - t0
@@ -36,6 +99,14 @@ def run(prop, tier, seed, replay=None):
     res = flow.correspond(bins, "crt", lines=lines, harness_args=([] if lines is not None else [tier, str(seed)]), timeout=3000)
     t_corr = time.time() - t0
     counts = flow.decide(V, res, known=report.findings_for(prop))
+    if not smf_ok:
+        # the table theorem broke: the histories above are the search for a concrete copy-then-use history that differs
+        witnesses = [l for v, l, _ in res["results"] if v.startswith("DIFF") and ("kind=SPEC" in v or "kind=BOTH" in v)
+                     and len(l.split(" ")) > 1 and (set(l.split(" ")[1]) & COPY_LETTERS)]
+        witnesses.sort(key=len)
+        V.violation("smf", {"obligation": "Givaro.Props.C14SMF.smf_complete (generated special-member-function table)",
+                            "what": "a copy operation of a CRT/RNS class does not copy a member of the model's state from the same member",
+                            "rows": smf_bad[:40], "lines": witnesses[:5]}, no_failing_input=not witnesses)
 
     # coverage bookkeeping: families, domains, histories, list lengths actually exercised
     fam, hists, lens = {}, set(), {}
@@ -44,7 +115,7 @@ def run(prop, tier, seed, replay=None):
         fam[toks[0]] = fam.get(toks[0], 0) + 1
         if len(toks) > 2:
             hists.add((toks[0].split(".")[0], toks[1]))
-            if toks[0] == "irns" or toks[0].startswith("rns.") or toks[0] == "fixed":
+            if toks[0] in ("irns", "mirns", "fixed") or toks[0].startswith("rns.") or toks[0].startswith("mrns."):
                 try:
                     n = int(toks[2], 16)
                     lens[n] = lens.get(n, 0) + 1
@@ -53,7 +124,7 @@ def run(prop, tier, seed, replay=None):
 
     def nontrivial(l):
         toks = l.split(" = ")[0].split(" ")
-        if toks[0] == "irns" or toks[0].startswith("rns.") or toks[0] == "fixed":
+        if toks[0] in ("irns", "mirns", "fixed") or toks[0].startswith("rns.") or toks[0].startswith("mrns."):
             try:
                 return int(toks[2], 16) >= 2 or len(toks[1]) >= 2
             except ValueError:
@@ -67,9 +138,14 @@ def run(prop, tier, seed, replay=None):
              "negative and beyond M^2; histories over {construct, template-construct, default+setPrimes, start on other primes then "
              "setPrimes/assign, convert, Reciprocals, product, copy-construct, copy-and-drop, assign to fresh, assign over another system with or "
              "without stale caches} enumerated exhaustively up to 2 (quick) / 3 (thorough) operations after the start and sampled up to 12; "
+             "programs of 2..24 operations over four objects (construct, default, copy-construct from another object, assign incl. self, "
+             "setPrimes, conversions, Reciprocals, product) sampled; Poly1CRT in both directions (residues -> polynomial, polynomial of degree "
+             "< n, = n, > n and un-normalised -> residues -> polynomial); "
              "distinct = distinct input line; non-trivial = at least two moduli or a history of at least two operations",
         nontrivial=nontrivial,
         extra={"lines_per_family": dict(sorted(fam.items())), "distinct_histories": len(hists),
+               "smf_table": {"class_instantiations": len(smf_table), "rows": sum(len(t["fields"]) * len(t["ops"]) for t in smf_table),
+                             "theorem_ok": bool(smf_ok), "broken_rows": smf_bad[:10]},
                "list_length_histogram": dict(sorted(lens.items())),
                "timing_s": {"lean": round(L["t"], 1), "harness_build": round(t_build, 1), "correspondence": round(t_corr, 1)}})
     V.finish()
